@@ -301,6 +301,16 @@ def sec_bernoulli(ck, n=3):
         return j
     ck.prove(f"bernoulli.mask.mode_allowed@n={n}", asx, conj([implies(neg(mx[i]), ox["mode"][i] == 0) for i in range(n)] + [implies(mx[i], ox["mode"][i] == ox["umode"][i]) for i in range(n)]),
              replay=judge_replay(trs, Sx, ix.uf_apps, jb("mode")))
+    # the mode is the more likely outcome of every bit: 1 when the log-odds are positive, 0 when they are negative (a tie at 0 may go either way)
+    lx = list(Sx["l"])
+
+    def jm(outs, ins):
+        a, ll, mm = outs["mode"].astype(int), np.asarray(ins["l"], float), ins["m"].astype(bool)
+        bad = [i for i in range(len(ll)) if mm[i] and ((ll[i] > 1e-6 and a[i] != 1) or (ll[i] < -1e-6 and a[i] != 0))]
+        return bool(bad), {"mode": a.tolist(), "logits": ll.tolist(), "mask": mm.tolist(), "bits_that_are_not_the_more_likely_outcome": bad}
+    gm = conj([implies(mx[i], conj([implies(lx[i] > 0, ox["mode"][i] == 1), implies(lx[i] < 0, ox["mode"][i] == 0)])) for i in range(n)])
+    ck.prove(f"bernoulli.mode_is_the_more_likely_outcome@n={n}", asx, gm, replay=judge_replay(trs, Sx, ix.uf_apps, jm),
+             margin_goal=implies(conj([z3.Or(x >= Fraction(1, 4), x <= -Fraction(1, 4)) for x in lx]), gm))
     ck.prove(f"bernoulli.mask.sample_allowed@n={n}", asx, conj([implies(neg(mx[i]), ox["sample"][i] == 0) for i in range(n)]),
              replay=judge_replay(trs, Sx, ix.uf_apps, jb("sample")))
     ck.control("control.bernoulli.sample_never_one", asx, conj([ox["sample"][i] == 0 for i in range(n)]))
@@ -477,7 +487,11 @@ def case_allowed(case, a, m, L, o, greedy=False):
         if greedy:
             g.append(mc_greedy(a, m, L, o))
         return conj(g)
-    return conj([implies(neg(m[i]), o.eq(a[i], 0) if not isinstance(a[i], bool) else (not a[i])) for i in range(len(m))])
+    g = [implies(neg(m[i]), o.eq(a[i], 0) if not isinstance(a[i], bool) else (not a[i])) for i in range(len(m))]
+    if greedy:
+        # multi-binary: every allowed bit of the key-less action is its more likely outcome (log-odds L[i] > 0 -> 1, < 0 -> 0)
+        g += [implies(m[i], conj([implies(L[i] > 0, o.eq(a[i], 1)), implies(L[i] < 0, o.eq(a[i], 0))])) for i in range(len(m))]
+    return conj(g)
 
 
 def case_asm(case, m):
